@@ -254,6 +254,17 @@ fn packagings(v: &IxView, idx: usize, salt: u64, cov: &mut Coverage, out: &mut V
     // 4. exist-vs-named: arrays of the path that do not exist are created empty on the fork
     let missing: Vec<Pubkey> = arrays.iter().filter(|k| !v.pre.exists(k)).cloned().collect();
     if !missing.is_empty() {
+        // 4a. somebody sent lamports to the address of a merely named array: still no tick array there, same result
+        let mut f0 = v.pre.clone();
+        for k in &missing {
+            f0.put(*k, crate::rt::Account::new(890_880 + (salt % 1000), vec![], ix::sys()));
+        }
+        let (ok, code, f) = exec(&f0, v.ix.clone());
+        cov.probe("packaging_named_array_address_prefunded");
+        if !ok || signature(&f, &wk, &pool, &trader, &missing) != signature(v.post, &wk, &pool, &trader, &missing) {
+            out.push(viol("prefunded_array_address_changes_outcome", idx, format!("{} gives a different result when the addresses of its merely named arrays {:?} hold lamports (system-owned, no data): ok={} code={:?}", name, missing, ok, code)));
+            return;
+        }
         // find the start index of a missing array by matching PDAs around the current tick
         let n = 88 * pool.tick_spacing as i32;
         let b = crate::gen::ta_start(pool.tick_current_index, pool.tick_spacing);
